@@ -236,7 +236,7 @@ class Evaluator:
         if isinstance(e, (ast.Tuple, ast.List)):
             return [self.expr(x, env, depth) for x in e.elts]
         if isinstance(e, ast.JoinedStr):
-            return Sentinel("STR")
+            return Sentinel("fmt:" + " ".join(ast.unparse(e).split()))
         if isinstance(e, ast.Call):
             return self.call(e, env, depth)
         raise Inconclusive("expression %s" % type(e).__name__)
@@ -253,7 +253,7 @@ class Evaluator:
         if isinstance(f, ast.Attribute):
             # string formatting: opaque text
             if f.attr == 'format':
-                return Sentinel("STR")
+                return Sentinel("fmt:" + " ".join(ast.unparse(e).split()))
             base = self.expr(f.value, env, depth)
             if isinstance(base, Obj) and base.kind == 'task':
                 return self.task_method(base, f.attr)
